@@ -471,6 +471,15 @@ type fatSys struct {
 	nops      int
 	oracle    string // "model" (C01), "fatck" (C08), "range" (C03)
 	canonFree bool
+	// what the writing handle showed after its Write was refused (judged against the fresh-handle view of the same file)
+	shRefused *refusedHandleView
+}
+
+type refusedHandleView struct {
+	path string
+	data []byte
+	size int64
+	err  error
 }
 
 func newFatSys(c fatCfg, oracle string) (*fatSys, error) {
@@ -541,6 +550,16 @@ func (s *fatSys) resolveLen(l string, cur int) int {
 		return 5 * c
 	}
 	var n int
+	if strings.HasSuffix(l, "c+1") {
+		if _, err := fmt.Sscanf(l, "%dc+1", &n); err == nil {
+			return n*c + 1
+		}
+	}
+	if strings.HasSuffix(l, "c") {
+		if _, err := fmt.Sscanf(l, "%dc", &n); err == nil {
+			return n * c
+		}
+	}
 	fmt.Sscanf(l, "%d", &n)
 	return n
 }
@@ -563,6 +582,7 @@ func (s *fatSys) resolveOff(o string, cur int) int {
 // Returns the error of the library call (nil = accepted) and violations found by the per-call oracles.
 func (s *fatSys) apply(op fsOp) (err error, viols []explore.Viol) {
 	s.nops++
+	s.shRefused = nil
 	seed := opSeed(op)
 	add := func(sig, msg string) { viols = append(viols, explore.Viol{Sig: sig, Msg: msg}) }
 	m := s.model
@@ -632,6 +652,33 @@ func (s *fatSys) apply(op fsOp) (err error, viols []explore.Viol) {
 				}
 				n, err = f.Write(data)
 				if err != nil {
+					// the call is refused: the handle stays usable, so what it shows must still be the file
+					// (compared with the fresh-handle view of the same file once the model is re-synchronised)
+					rv := &refusedHandleView{path: op.Path, size: -1}
+					if fi, e := f.Stat(); e == nil {
+						rv.size = fi.Size()
+					}
+					if _, e := f.Seek(0, io.SeekStart); e != nil {
+						rv.err = e
+					} else {
+						buf := make([]byte, 1000)
+						for len(rv.data) < max(cur, off+ln)+2*s.cb+4096 {
+							k, e := f.Read(buf)
+							rv.data = append(rv.data, buf[:k]...)
+							if e == io.EOF {
+								break
+							}
+							if e != nil {
+								rv.err = e
+								break
+							}
+							if k == 0 {
+								rv.err = errors.New("Read returned 0, nil")
+								break
+							}
+						}
+					}
+					s.shRefused = rv
 					return
 				}
 				if n != len(data) {
@@ -851,6 +898,34 @@ func (s *fatSys) apply(op fsOp) (err error, viols []explore.Viol) {
 				}
 				break
 			}
+		}
+		return nil, viols
+	case "fragfill":
+		// prepared state with fragmented free space: numbered files of op.Len bytes until the filesystem refuses, then
+		// every other one is removed, so the largest free run is one such file (plus whatever was too small to use)
+		var made []string
+		for i := 0; i < 20000; i++ {
+			name := fmt.Sprintf("%s%04d", op.Path, i)
+			e, _ := s.apply(fsOp{Kind: "write", Path: name, Off: "0", Len: op.Len})
+			if e != nil {
+				if live, verr := fsView(s.fs, s.model.caseFold, 4096, 1<<25); verr == nil {
+					s.resync(live, name)
+				}
+				if s.model.get(name) != nil {
+					_, _ = s.apply(fsOp{Kind: "remove", Path: name})
+				}
+				break
+			}
+			made = append(made, name)
+		}
+		for i := 1; i < len(made); i += 2 {
+			if e, _ := s.apply(fsOp{Kind: "remove", Path: made[i]}); e != nil {
+				return e, viols
+			}
+		}
+		s.shRefused = nil
+		if len(made) < 6 {
+			return fmt.Errorf("fragfill made only %d files", len(made)), viols
 		}
 		return nil, viols
 	case "fillsmall", "filldirs":
